@@ -224,6 +224,8 @@ def _h_indices(ts, values, out):
 def fd_order(data, nfds):
     """Descriptor indices in the order an iterator meets them."""
     m = wire.validate(data, nfds).msg
+    if m is None:
+        return []          # not a valid message (streams that end in an invalid one): no descriptors to follow
     return _h_indices(wire.parse_signature(m.body_sig), m.body, [])
 
 
@@ -279,12 +281,26 @@ def gen_case(rng, stats):
         nm = rng.choice([1, 1, 2])
         msgs, nf = [], []
         for _ in range(nm):
-            if rng.random() < 0.6:
+            r0 = rng.random()
+            if r0 < 0.5:
                 d, n = _fd_message(rng)
+            elif r0 < 0.72:
+                # larger than one socket read: the loader's buffer is compacted after such a message has been consumed
+                big = gen.rand_message(rng, maxdepth=1, mtype=rng.choice([1, 4]), extra_unknown=False)
+                big["fields"] = [(c, v) for c, v in big["fields"] if c != 8] + [(8, Variant(b"ay", None) if False else Variant(b"g", b"ay"))]
+                big["body_sig"], big["body"] = b"ay", [[rng.getrandbits(8) for _ in range(rng.choice([2100, 3100, 5000]))]]
+                d, n = gen.encode(big), 0
+                if wire.validate(d).kind != wire.VALID:
+                    d, n = _small_message(rng), 0
             else:
                 d, n = _small_message(rng), 0
             msgs.append(d)
             nf.append(n)
+        if rng.random() < 0.2:
+            # the stream ends in a message the fault-free loader rejects (valid header, damaged body or signature): a failing
+            # allocation may delay that verdict, it must never turn it into a message
+            msgs.append(_invalid_message(rng))
+            nf.append(0)
         total = sum(len(d) for d in msgs)
         r = rng.random()
         if r < 0.4:
@@ -629,6 +645,31 @@ class _Judge(object):
         nfds = [int(x) for x in tv[2].split(",")]
         datas = [bytes.fromhex(x) for x in tv[3].split(",")]
         orders = [fd_order(d, n) for d, n in zip(datas, nfds)]
+        if ref.get("corrupt") and not ref.get("nostart") and not ref.get("stuck"):
+            # a stream the fault-free loader declares corrupt after len(ref msgs) messages: under faults the same messages
+            # come out and the stream is still declared corrupt - never a message more
+            self.part.count("lib:loader:reference-corrupt")
+            for run in runs:
+                self.common(run)
+                if run.get("nostart"):
+                    continue
+                if run.get("stuck"):
+                    self.bad("stuck", "queue_messages / buffer hand-over kept failing 50 times after the injected failure", run)
+                elif len(run["msgs"]) > len(ref["msgs"]):
+                    self.bad("invalid-accepted-under-fault", "the loader yields %d message(s) from a stream of which the fault-free loader "
+                             "accepts %d and then declares corrupt (reason %s)" % (len(run["msgs"]), len(ref["msgs"]), ref.get("reason")), run)
+                elif len(run["msgs"]) < len(ref["msgs"]) and run["corrupt"] and run.get("reason") != ref.get("reason"):
+                    # a VALID message in front was declared corrupt after the failure (e.g. the recorded descriptor finding)
+                    self.bad("corrupted-after-oom:reason%s" % run.get("reason"),
+                             "loader declared a valid message corrupted (DBusValidity %s) after an allocation failure (%d of %d valid "
+                             "messages delivered)" % (run.get("reason"), len(run["msgs"]), len(ref["msgs"])), run)
+                elif run["msgs"] != ref["msgs"]:
+                    self.bad("messages-lost-before-corruption", "%d of the %d messages in front of the invalid one were delivered"
+                             % (len(run["msgs"]), len(ref["msgs"])), run)
+                elif not run["corrupt"]:
+                    self.bad("corruption-not-detected-under-fault", "the invalid message at the end of the stream was neither rejected nor yielded", run)
+                self.outcome(run, run.get("ooms", 0) > 0)
+            return
         if ref.get("nostart") or ref.get("corrupt") or len(ref.get("msgs", [])) != len(datas):
             self.part.count("lib:loader:reference-rejected(C01/C15 domain)")
             return
